@@ -158,9 +158,25 @@ def run_A(scn, cfg, chooser, ref_cache=None):
     except Exception as e:  # noqa: BLE001
         build_exc = e
 
+    # ---- optional second lazy result computed in the SAME graph (dask key collisions, shared
+    #      state between two results of one operation) --------------------------------------
+    pair = None
+    if build_exc is None and scn.get("pair") and not relax:
+        try:
+            pscn = scn["pair"]
+            pref, pref_exc, _ = eager_reference(pscn)
+            if pref_exc is None:
+                pcube = S.build_cube(pscn)
+                paux = S.build_aux(pscn, lazy=True)
+                plazy = S.apply_op(pscn, S.make_lazy(pscn, pcube), lazy=True, aux=paux)
+                pair = {"ref": pref, "lazy": plazy}
+        except Exception:  # noqa: BLE001 - the pair is an optional extra; the primary still runs
+            pair = None
+
     sim = Sim(chooser, max_steps=50000, preempt=cfg["preempt"], stall=cfg["stall"], log_lines=True)
     comp_exc = None
     computed = None
+    pair_computed = None
     ex = None
     stats = proxies.ColdStats()
     if build_exc is None:
@@ -172,10 +188,12 @@ def run_A(scn, cfg, chooser, ref_cache=None):
 
             def body():
                 if True:  # warnings are silenced process-wide (catch_warnings is not thread-safe)
+                    if pair is not None:
+                        return dask.compute(lazy_res, pair["lazy"], scheduler=get, optimize_graph=cfg["optimize_graph"])
                     (out,) = dask.compute(lazy_res, scheduler=get, optimize_graph=cfg["optimize_graph"])
-                return out
+                return out, None
 
-            computed = sim.run(body)
+            computed, pair_computed = sim.run(body)
         except StepLimit:
             rr.outcome = "step-cap"  # a bound of the exploration, neither error nor violation
         except HarnessInconclusive as e:
@@ -251,6 +269,11 @@ def run_A(scn, cfg, chooser, ref_cache=None):
             )
         if tuple(dshape) != tuple(g["shape"]):
             rr.violations.append(("declared-shape", f"{k}: lazy object declares shape {dshape} but computes {g['shape']}"))
+    # ---- the second result of the same graph -------------------------------------
+    if pair is not None and pair_computed is not None:
+        rr.probes["pair_computed_in_one_graph"] = rr.probes.get("pair_computed_in_one_graph", 0) + 1
+        for cls, msg in S.compare(pair["ref"], S.normalise(pair_computed)):
+            rr.violations.append((f"paired-result-differs-{cls}", f"second lazy result computed in the same graph: {msg}"))
     # ---- cold wrapper still works afterwards ------------------------------
     if cfg["cold"] and not rr.violations:
         for k, fn in cold_targets.items():
